@@ -76,7 +76,16 @@ def dump_yaml(d):
     return "\n".join(_emit(d)) + "\n"
 
 
-def gen_project(r, odd_names=0.15, max_pkgs=9):
+def _tool_place(r2, t):
+    """where a package keeps the tool `t`: (path, libs); distinct tools of one package get distinct places"""
+    path = r2.choice(["bin/" + t.lower(), "bin/" + t.lower(), "usr/bin", "bin", "."])
+    libs = r2.choice([["lib/" + t.lower()], ["lib/" + t.lower(), "lib"], ["lib"], []])
+    return {"path": path, "libs": libs}
+
+
+def gen_project(r, odd_names=0.15, max_pkgs=9, r2=None):
+    """`r2` (optional, a second stream so that the draws from `r` stay what they were): packages that provide
+    several tools with different path / libs, used together by one step or by different steps of one job"""
     npk = r.randrange(2, max_pkgs + 1)
     # ---- recipes and their packages
     pool = list(PLAIN)
@@ -123,6 +132,21 @@ def gen_project(r, odd_names=0.15, max_pkgs=9):
             p["provideTools"].append(t)
             tool_prov.setdefault(t, []).append(i)
         p["provideSandbox"] = False
+        p["toolPlace"] = {}
+        p["tools0"] = list(p["tools"])
+        if r2 is not None:
+            both = r2.random() < 0.6
+            need = r2.random() < 0.5
+            if p["provideTools"] and both:
+                # one package, several tools: every tool has its own path and libs
+                p["provideTools"] = sorted(set(p["provideTools"]) | set(TOOLS))
+                for t in p["provideTools"]:
+                    pl = _tool_place(r2, t)
+                    if any(pl["path"] == o["path"] or pl["libs"] == o["libs"] for o in p["toolPlace"].values()):
+                        pl = {"path": "bin/" + t.lower(), "libs": ["lib/" + t.lower()]}
+                    p["toolPlace"][t] = pl
+            if need and not p["provideTools"]:
+                p["tools"] = list(TOOLS)
         if i > 0 and not p["empty"] and sandbox_prov is None and r.random() < 0.15:
             p["provideSandbox"] = True
             sandbox_prov = i
@@ -208,15 +232,19 @@ def gen_project(r, odd_names=0.15, max_pkgs=9):
             b["buildScript"] = "echo build %s $1 ${V2:-}" % tag
             if "V2" in p["vars"]:
                 b["buildVars"] = ["V2"]
-            if cond_tools and r.random() < 0.6:
-                b["buildTools"] = cond_tools[:1]
+            # (the draw from `r` happens exactly when it did before `r2` existed)
+            if (r.random() < 0.6) if p["tools0"] else (bool(cond_tools) and r2.random() < 0.6):
+                b["buildTools"] = cond_tools[:1] if r2 is None or r2.random() < 0.6 else cond_tools
         b["packageScript"] = "echo package %s ${V1:-}" % tag
         if p["vars"]:
             b["packageVars"] = p["vars"]
         if cond_tools:
             b["packageTools"] = cond_tools
         if p["provideTools"]:
-            b["provideTools"] = {t: ({"path": "bin", "libs": ["lib"]} if r.random() < 0.3 else ".") for t in p["provideTools"]}
+            b["provideTools"] = {t: ({"path": "bin", "libs": ["lib"]} if r.random() < 0.3 else ".") for t in p["provideTools"][:1]}
+            for t in p["provideTools"]:
+                if t in p["toolPlace"]:
+                    b["provideTools"][t] = p["toolPlace"][t]
         if p["provideSandbox"]:
             b["provideSandbox"] = {"paths": ["/bin", "/usr/bin"], "mount": ["/etc", ["/tmp/x", "/x", ["nofail"]]]}
         if p["depends"] and r.random() < 0.1:
@@ -264,14 +292,17 @@ def gen_project(r, odd_names=0.15, max_pkgs=9):
             "recipes": [x[0] for x in recipes]}
 
 
-def gen_toolbox_project(r):
+def gen_toolbox_project(r, r2=None):
     """Tool and sandbox providers that are needed in several sandbox contexts.
 
     base packages <- tool providers (reached only through `use: [tools]` by most users) <- users.  Users are
     either built inside a sandbox (own `use: [sandbox]` dependency first, or below a root level sandbox that is
     forwarded to the following dependencies) or outside, and may depend on later plain users, so that one variant
     of a tool / user / sandbox provider is needed inside *and* outside of a sandbox and by several users.  For
-    Jenkins these are different packages (different workspaces and jobs) with the same plain Variant-Id."""
+    Jenkins these are different packages (different workspaces and jobs) with the same plain Variant-Id.
+
+    `r2` (optional second stream, the draws from `r` are unchanged): a tool provider provides a second tool L<i>
+    with its own path and libs next to T<i>; users of T<i> use L<i> too, in the same or in their other step."""
     files = {"config.yaml": dump_yaml({"bobMinimumVersion": BOB_MIN_VERSION})}
     nbase = r.randrange(1, 3)
     ntool = r.randrange(1, 3)
@@ -291,6 +322,7 @@ def gen_toolbox_project(r):
             doc["depends"] = [r.choice(bases)]
         files["recipes/%s.yaml" % sb] = dump_yaml(doc)
     tools = []
+    second = {}           # tool name -> the other tool of its provider
     for i in range(ntool):
         t = "tool%d" % i
         doc = {"buildScript": "echo build %s" % t, "packageScript": "echo package %s" % t, "provideTools": {"T%d" % i: "."}}
@@ -301,6 +333,10 @@ def gen_toolbox_project(r):
             doc["buildTools"] = ["T0"]
         if deps:
             doc["depends"] = deps
+        if r2 is not None and r2.random() < 0.7:
+            doc["provideTools"] = {"T%d" % i: r2.choice([".", {"path": "bin/t%d" % i, "libs": ["lib/t%d" % i]}]),
+                                   "L%d" % i: {"path": "bin/l%d" % i, "libs": r2.choice([["lib/l%d" % i], ["lib/l%d" % i, "lib"], []])}}
+            second["T%d" % i] = "L%d" % i
         files["recipes/%s.yaml" % t] = dump_yaml(doc)
         tools.append((t, "T%d" % i))
     users = ["u%d" % i for i in range(nuser)]
@@ -320,7 +356,15 @@ def gen_toolbox_project(r):
         if r.random() < 0.3:
             deps.append(r.choice(bases))
         doc = {"depends": deps, "buildScript": "echo build %s" % u, "packageScript": "echo package %s" % u}
-        doc[r.choice(["buildTools", "packageTools"])] = [tn for (_, tn) in used]
+        where = r.choice(["buildTools", "packageTools"])
+        doc[where] = [tn for (_, tn) in used]
+        more = [second[tn] for (_, tn) in used if tn in second]
+        if more:
+            k = r2.random()
+            if k < 0.45:
+                doc[where] = doc[where] + more
+            elif k < 0.9:
+                doc["packageTools" if where == "buildTools" else "buildTools"] = more
         files["recipes/%s.yaml" % u] = dump_yaml(doc)
     # root: sandboxed users first (outside of any outer sandbox), then optionally a sandbox for the rest
     first = [u for u in users if own_sandbox[u]]
